@@ -1094,6 +1094,20 @@ pub fn main(args: &util::Args) {
         for (k, (id, src)) in late_programs().into_iter().enumerate() {
             texts.push(Text { id, kind: "full", src, base: nb + k, path: None });
         }
+        // calls of every function / method of the REAL initial environment with every argument count 0..declared+2
+        // (harness/src/arity.rs), and the text as it looks while the call is being typed (`name(` at the end):
+        // position sweep of the three queries only (these texts are ill-typed on purpose)
+        for (k, c) in crate::arity::catalogue(false).into_iter().enumerate() {
+            if !c.kind.starts_with("builtin") || !c.tag.ends_with("ctx=let") || !c.tag.contains("args=typed") {
+                continue;
+            }
+            if c.given == 0 {
+                if let Some(open) = c.src.find("let a = ").and_then(|p| c.src[p..].find("()").map(|q| p + q)) {
+                    texts.push(Text { id: format!("arity:{}:typing", c.tag), kind: "arity", src: c.src[..open + 1].to_string(), base: nb + 10_000 + k, path: None });
+                }
+            }
+            texts.push(Text { id: format!("arity:{}", c.tag), kind: "arity", src: c.src, base: nb + 10_000 + k, path: None });
+        }
         // the oracles themselves (hover = TAST, completion validity, position sweep) on CRLF / mixed texts
         let mut k = 0;
         for (bi, (id, src, path)) in bases.iter().enumerate() {
